@@ -63,8 +63,8 @@ func wktGen(r *rand.Rand, n int, tier string, emit func(Case)) {
 	for z := 0; z < 8; z++ {
 		emit(Case{"kind": "zero", "which": z})
 	}
-	for i := 0; i < n; i++ {
-		tg := &treeGen{r: r, finite: true, simple: i%4 == 3, short: i%4 == 1}
+	for i := 0; i < n+bigExtra(n); i++ { // large sizes come last
+		tg := &treeGen{r: r, finite: true, simple: i%4 == 3, short: i%4 == 1, big: i >= n}
 		kind := ""
 		if i < 28 {
 			kind = typeNames[i%7]
